@@ -12,7 +12,14 @@ SPEC = {
             "fnv1a32/64 (both overloads), and chaining f(suffix, seed=f(prefix)) == expected f(whole) for crc32/fnv1a32/fnv1a64. "
             "Inputs: every length 0..300 x fills {00, FF, counter, PRNG} with EVERY split point 0..len; thorough adds lengths "
             "301..1100 x 4 fills; 200 (quick) / 5000 (thorough) random inputs of length 64k+d, d in -9..+1, up to exactly 1 MiB, "
-            "with <=8 sampled split points each (0, len, a block boundary, len-1, random). Length ladder: every size 2^k+d (k=9..20) and 3*2^k+d (k=8..18), d in -2..+2 (above 64 KiB -1..+1 in the quick tier), "
+            "with <=8 sampled split points each (0, len, a block boundary, len-1, random). Dense length sweep: every length 301..5000 (stride 1, random data) in addition to 0..300 x 4 fills. "
+            "Alignment sweep: the inputs of length 0..80 (4 fills) at every pointer offset 0..15 of a 16-byte aligned block, flush "
+            "against the end of an exact-size block and with 16 spare bytes behind, ladder sizes <= 64 KiB at 6 offsets, for all six "
+            "(ptr,size) entry points. Digest-shape-directed inputs: bounded search (8M quick / 40M thorough MD5 candidates per run, "
+            "nothing cached) for inputs whose MD5 is entirely text bytes / has quotes or backslashes at the ends, plus two fixed "
+            "vectors (MD5 and SHA-1 digests that are entirely text). Early-call probe: every function called once from a static "
+            "initializer of the harness TU (crc32 running value computed early, chained in main), compared in main with the oracle. "
+            "Length ladder: every size 2^k+d (k=9..20) and 3*2^k+d (k=8..18), d in -2..+2 (above 64 KiB -1..+1 in the quick tier), "
             "plus 1 MiB+1 and 1 MiB+2, random data, all functions and sampled splits. Chains with an EMPTY piece: the piece is "
             "passed as (nullptr,0), (valid pointer,0) or empty std::string, at the start / middle / end of prefix+suffix, started from "
             "the default value and from a non-default running value (expected: zlib.crc32(x, v) / recurrence started at v), at every "
@@ -44,6 +51,11 @@ SPEC = {
                          "input:enumerated:zero:*", "input:enumerated:ff:*", "input:enumerated:counter:*", "input:enumerated:prng:*",
                          "ladder:size:4K-16K", "ladder:size:16K-64K", "ladder:size:64K-1M", "ladder:size:=1MiB", "ladder:size:>1MiB",
                          "ladder:offset-1", "ladder:offset+0", "ladder:offset+1",
+                         "early-call:all-functions-before-main", "mt:early-call:*", "tsan:early-call:*",
+                         "digest-shape:md5:all-text*", "digest-shape:sha1:all-text*", "digest-shape:md5:has-quote-or-backslash",
+                         "alignment:offset1:flush-at-end:len<=80", "alignment:offset15:flush-at-end:len<=80",
+                         "alignment:offset7:inside-block:len<=80", "alignment:offset9:flush-at-end:large",
+                         "dense:len%64=0", "dense:len%64=55", "dense:len%64=56", "dense:len%64=63",
                          "chain:empty-piece:nullptr:start:*", "chain:empty-piece:nullptr:middle:running-value",
                          "chain:empty-piece:nullptr:end:running-value", "chain:empty-piece:valid-pointer:middle:*",
                          "chain:empty-piece:empty-string:start:default-start", "chain:empty-piece:empty-string:end:running-value",
